@@ -10,6 +10,22 @@ from common import coq_list
 
 HEAD = ("From Coq Require Import ZArith List PrimFloat. Import ListNotations.\nFrom Snow Require Import Topology Sn1D Sn1DF.\n"
         "Definition c1 := %s.\nEval vm_compute in bad_cases sn1d_case_ok c1.\nDefinition c0 := %s.\nEval vm_compute in bad_cases sn0d_case_ok c0.\n")
+HEAD2 = ("From Coq Require Import ZArith List PrimFloat. Import ListNotations.\nFrom Snow Require Import Topology Sn2D Sn2DF.\n"
+         "Definition c2 := %s.\nEval vm_compute in bad_cases sn2d_case_ok c2.\n")
+
+
+def coq_2d(rep, cases, labels, name):
+    """one-step correspondence of the 2D in-place model on the given cases"""
+    if not cases:
+        return
+    rc, out = common.coq_eval(name, HEAD2 % coq_list(cases), timeout=1200)
+    blocks = common.eval_blocks(out)
+    if rc != 0 or len(blocks) != 1:
+        rep.violation("correspondence-run-2D", "Coq evaluation of the 2D model failed: " + out[-500:], dict(log=out[-2000:]), found_input=False); return
+    bad = common.parse_nat_list(blocks[0])
+    rep.coverage["traces_validated_against_impl_2D"] = len(cases) - len(bad)
+    for b in bad:
+        rep.violation("model-vs-impl 2D", "one-step correspondence model/Sn2D.v <-> _run_2D no longer checks on %s" % labels[b], dict(correspondence="model/Sn2D.v", run=labels[b]), found_input=False)
 
 
 def bounds_oracle(rep, rec):
@@ -66,16 +82,16 @@ def stability(rec):
 
 def check(rep, tier):
     rng = random.Random(rep.seed)
-    ok, msg = common.proof_stage(rep, "C07", ["theories/model/Sn1DF.vo"])
+    ok, msg = common.proof_stage(rep, "C07", ["theories/model/Sn1DF.vo", "theories/model/Sn2DF.vo"])
     rep.rule = ("Snowing runs in 0D / 1D / 2D, shelf / VISF / jacket, several geometries, with and without holds and controlled nucleation, every step saved; judged on every reported value: finite, "
                 "T <= max(initial, T_eq_l), T >= coldest shelf so far (shelf / jacket only), 0 <= w_i <= water fraction, no ice before nucleation or above T_eq_l, w_i on the liquidus where present; "
                 "the 0D and 1D step models are tied to the code by one-step binary64 correspondence on sampled saved steps (cooling incl. the vacuum window, nucleation, solidification); "
                 "non-trivial = completed run")
     rep.trusted = ["Coq 8.16.1 kernel + vm_compute", "binary64 instance of model/Sn1D.v (tolerance 2^-30)", "evaporative flux values are computed by utils.py and passed to the model (C20 covers utils.py)",
-                   "2D model: oracle only (no Coq step model)"]
+                   "2D: one-step correspondence with the in-place sweep model model/Sn2D.v; no theorems about it"]
     recs = sr.catalogue(rng, tier, n0=3, n1=3 if tier == "quick" else 9, n2=1 if tier == "quick" else 5)
     recs += sr.catalogue(rng, tier, dims=("homogeneous", "spatial_1D"), cn=True, n0=1, n1=1)
-    c1, c0, l1, l0 = [], [], [], []
+    c1, c0, l1, l0, c2, l2 = [], [], [], [], [], []
     for rec in recs:
         lab = rec["label"]
         if rec["error"] is not None:
@@ -89,6 +105,8 @@ def check(rep, tier):
             txt, info = sr.sn1d_case(rec["S"], rec["dt"], rng); c1.append(txt); l1.append(lab)
         elif rec["dim"] == "homogeneous":
             txt, info = sr.sn0d_case(rec["S"], rng); c0.append(txt); l0.append(lab)
+        else:
+            txt, info = sr.sn2d_case(rec["S"], rec["dt"], rng); c2.append(txt); l2.append(lab)
     rc, out = common.coq_eval("c07_0", HEAD % (coq_list(c1), coq_list(c0)), timeout=900)
     blocks = common.eval_blocks(out)
     if rc != 0 or len(blocks) != 2:
@@ -100,5 +118,6 @@ def check(rep, tier):
             rep.violation("model-vs-impl 1D", "one-step correspondence model/Sn1D.v <-> _run_1D no longer checks on %s" % l1[b], dict(correspondence="model/Sn1D.v", run=l1[b]), found_input=False)
         for b in b0:
             rep.violation("model-vs-impl 0D", "one-step correspondence model/Sn1D.v (0D) <-> _run_0D no longer checks on %s" % l0[b], dict(correspondence="model/Sn1D.v cool0/solid0/nuc0", run=l0[b]), found_input=False)
+    coq_2d(rep, c2, l2, "c07_2d")
     if not ok:
         rep.violation("proof-broken", "proof obligations of C07 do not check: " + msg, dict(theorem="props/C07.v", log=msg), found_input=False)
